@@ -367,7 +367,32 @@ INT_PROGRAMS = [
     "gcd(12, 18)", "lcm(4, 6)", "prod([1,2,3])", "min(1, 2)", "div0(12, 5)", "non_zero(0, 2)",
     "length(<<<1 => 2>>>)", "bit_rotate_left(1, 3)", "enumerate(['a'])[0][0]", "parse_json('5')",
     "date('20201231') - date('20200101')", "(date('20200301') - date('20200227')) * 2",
+    # values that come out of conversions of host data (JSON text, comparisons, counts) rather than out of literals
+    "parse_json('true')", "parse_json('false')", "parse_json('[true, false, 1, 0, 2.5]')", "parse_json('{\"a\": true, \"b\": [false, {\"c\": true}]}')",
+    "parse_json('[1, 1.0, -0, -0.0, 1e3, 12345678901234567890, 1.5e-7]')", "parse_json('\"text\"')", "parse_json('[]')", "parse_json('{}')",
+    "[x > 1 for x in [1, 2]]", "[1 == 1, 1 == 2, 'a' in 'abc', NULL is NULL]", "int(FALSE)", "int(TRUE) + int(TRUE)", "count([TRUE, 1, TRUE], TRUE)",
+    "[length([]) == 0, is_empty([])]", "<<<x => x > 1 for x in [1, 2]>>>", "<<x == 2 for x in [1, 2]>>", "[boolean(1), boolean(0), boolean('1'), boolean('')]",
+    "[int('7') == 7, decimal('7') == 7, string(7) == '7']", "[matches('a', //a//), starts_with('ab', 'a'), contains([1], 1)]", "split('1,2', ',')",
+    # the same container object more than once inside one value (shared, not circular): text depends on the value only
+    "def row = [1, 2]; [row, row]", "def e = <<1>>; <<<'a' => e, 'b' => e>>>", "def x = [[1], [2]]; x + x", "def l = [1]; [l, [l, l], <<l>>]",
+    "def m = <<<1 => 2>>>; [m, m, m]", "def s_ = <<3>>; def l = [s_]; append(l, s_); append(l, [s_]); l", "def t = []; [t, t, [t]]", "def q = <<<>>>; <<<1 => q, 2 => q, 3 => [q]>>>",
+    "def row = [1, 2]; def g = [row, row]; string(g) == string([[1, 2], [1, 2]])", "def e = 'ab'; [e, e, [e]]",
+    "[ord('a') > 96, chr(97) == 'a']", "[bit_and(1, 1) == 1, sign(-0.0), abs(-0.0)]", "any([1, 2], fn(x) x > 1)", "all([], fn(x) FALSE)",
 ]
+
+
+def _round_trippable(av):
+    """C08's data values: NULL, booleans, ints, finite decimals, strings, and lists / sets / maps of them"""
+    k = av[0]
+    if k in ("null", "bool", "int", "str"):
+        return True
+    if k == "dec":
+        return av[1] == av[1] and abs(av[1]) != float("inf")
+    if k in ("list", "set"):
+        return all(_round_trippable(x) for x in av[1])
+    if k == "map":
+        return all(_round_trippable(a) and _round_trippable(b) for a, b in av[1])
+    return False
 
 
 def run_intpayload(spec, ctx):
@@ -395,6 +420,26 @@ def run_intpayload(spec, ctx):
             txt = str(o.value)
             if not INT_RE.match(txt):
                 ctx.violation("C08:numeral:int-result", "%s is an int rendering as %r" % (src, txt), {"src": src})
+        if o.kind == "value":
+            # whatever produced it: a data value has well-formed payloads, and its text evaluates to an equal value of the
+            # same type with the same text
+            bad = core.value_malformed(o.value)
+            if bad:
+                ctx.violation("C08:produced-value:malformed", "%s yields %s" % (src, bad), {"src": src})
+                continue
+            try:
+                av = gv.abstract(o.value)
+            except gv.NotData:
+                continue
+            if not _round_trippable(av):
+                continue
+            t1 = str(o.value)
+            env = ckl.functions.Environment()
+            o2 = observe(lambda: it.interpret(t1, "c08", env), 600000)
+            ctx.count("produced_value_roundtrips")
+            if o2.kind != "value" or o2.value.type() != o.value.type() or not (o2.value == o.value) or str(o2.value) != t1:
+                ctx.violation("C08:produced-value:round-trip", "%s yields a value rendering as %r, which evaluates to %s" % (
+                    src, t1, core.safe_str(o2.value if o2.kind == "value" else o2.exc, 120)), {"src": src, "text": t1})
     ctx.count("int_invariant_evaluations", mon.count)
     ctx.extras["int_invariant_via"] = mon.how
 
